@@ -18,7 +18,8 @@ from fractions import Fraction
 from common import Str, sx
 
 ID = 'C14'
-LEAN_MODULES = ['Cellml.Props.C14', 'Cellml.Tie.Transpile', 'Cellml.Tie.NumPipe', 'Cellml.Props.C14Gen', 'Cellml.Tie.Units']
+LEAN_MODULES = ['Cellml.Props.C14', 'Cellml.Tie.Transpile', 'Cellml.Tie.NumPipe', 'Cellml.Tie.NumPipeAll', 'Cellml.Props.C14Gen',
+                'Cellml.Props.C14GenAll', 'Cellml.Tie.Units']
 LITS_PER_DOC = 50
 N = {'quick': 44, 'thorough': 4200}
 RULE = ('one case = one generated CellML document of %d literals (quick 44 documents ≈ 2 100 literals, thorough 4 200 '
